@@ -103,6 +103,24 @@ struct LessCnt {
   }
 };
 
+/// Not relocatable: reads its state through a pointer to itself (and is not trivially copyable).  A set holding it must
+/// not claim trivially_relocatable; if it does and is relocated, comparisons go through the stale pointer.
+struct SelfCmp {
+  const SelfCmp *self;
+  int dir;
+  SelfCmp() : self(this), dir(1) {}
+  SelfCmp(const SelfCmp &o) : self(this), dir(o.dir) {}
+  SelfCmp &operator=(const SelfCmp &o) {
+    dir = o.dir;
+    return *this;
+  }
+  template <class A, class B>
+  bool operator()(const A &a, const B &b) const {
+    ++g_cmp_calls;
+    return self->dir > 0 ? valof(a) < valof(b) : valof(b) < valof(a);
+  }
+};
+
 #if CFG_CMP == 0
 typedef std::less<T> Cmp;
 typedef std::less<int> MCmp;
@@ -127,6 +145,12 @@ typedef ModCmp MCmp;
 constexpr const char *kCmpName = "stateful";
 inline Cmp make_cmp() { return Cmp(3); }
 inline MCmp make_mcmp() { return MCmp(3); }
+#elif CFG_CMP == 5
+typedef SelfCmp Cmp;
+typedef SelfCmp MCmp;
+constexpr const char *kCmpName = "selfptr";
+inline Cmp make_cmp() { return Cmp(); }
+inline MCmp make_mcmp() { return MCmp(); }
 #elif CFG_CMP == 4
 typedef std::less<> Cmp;
 typedef std::less<> MCmp;
